@@ -4,4 +4,5 @@ CONSTANTS SR = 2
           DR = 3
           DC = 4
           BatchBug = FALSE
+          ShiftBug = FALSE
 INVARIANT Emit
